@@ -107,6 +107,8 @@ def multi_flat_kernel(
     kernel_result = np.zeros(result_len).astype(np.float64)
 
     ind = 0
+    for mset in window[:offset]:
+        ind += len(mset)
     for i, mset in enumerate(window[offset:]):
         kernel_result[ind : ind + len(mset)] = np.repeat(ker[i], len(mset))
         if mask_index is not None:
@@ -141,6 +143,8 @@ def multi_geometric_kernel(
 
     kernel_result = np.zeros(result_len).astype(np.float64)
     ind = 0
+    for mset in window[:offset]:
+        ind += len(mset)
     for i, mset in enumerate(window[offset:]):
         kernel_result[ind : ind + len(mset)] = np.repeat(ker[i], len(mset))
         if mask_index is not None:
